@@ -1,13 +1,17 @@
-"""py2coq driver: regenerate coq/Gen/*.v from /repo's working tree.  `python -m lib.py2coq.main all|<name>...`"""
+"""py2coq driver: regenerate coq/Gen/*.v from /repo's working tree.  `python -m lib.py2coq.main all|<name>...`
+
+Generators are modules lib/py2coq/gen_*.py that decorate a zero-argument function with @register(name)."""
 import sys
 
 GENERATORS = {}
+
 
 def register(name):
     def deco(f):
         GENERATORS[name] = f
         return f
     return deco
+
 
 def load():
     import importlib, pkgutil, os
@@ -16,17 +20,25 @@ def load():
         if m.name.startswith("gen_"):
             importlib.import_module("lib.py2coq." + m.name)
 
-def main(argv):
-    load()
-    names = list(GENERATORS) if (not argv or argv == ["all"]) else argv
-    rc = 0
-    for n in names:
+
+def run(names=None):
+    """Run the named generators (all if None). Returns {name: None | exception}."""
+    from lib.py2coq import main as M      # the registry lives in the imported module, not in __main__
+    M.load()
+    res = {}
+    for n in (names or sorted(M.GENERATORS)):
         try:
-            GENERATORS[n]()
+            M.GENERATORS[n]()
+            res[n] = None
         except Exception as ex:
-            print("py2coq %s: %r" % (n, ex), file=sys.stderr)
-            rc = 1
-    return rc
+            res[n] = ex
+    return res
+
 
 if __name__ == "__main__":
-    sys.exit(main(sys.argv[1:]))
+    argv = sys.argv[1:]
+    r = run(None if (not argv or argv == ["all"]) else argv)
+    for n, ex in r.items():
+        if ex is not None:
+            print("py2coq %s: %r" % (n, ex), file=sys.stderr)
+    sys.exit(1 if any(ex is not None for ex in r.values()) else 0)
